@@ -1102,7 +1102,7 @@ reg("C07", ["Props.C07_cp_is_own_plus_distinct_descendants", "GM.C07_cp_order_in
             "Props.C07_next_pick_is_determined", "Props.C07_pick_unique",
             "Props.C07_configuration_law", "Props.C07_configuration_refused_iff", "Props.C07_configuration_idempotent"],
     run_G, ASSUME_G)
-reg("C12", ["GM.C12_closure", "Props.C12_selection_is_closure", "GM.selectNodes_none", "GM.mem_descAll_iff", "Props.C12_restriction_keeps_values", "Props.C12_alias_tag_wins", "Props.C12_alias_id", "Props.C12_alias_unknown_refused", "Props.C12_alias_list_is_union", "Props.C12_alias_list_refused_iff"], run_G, ASSUME_G)
+reg("C12", ["GM.C12_closure", "Props.C12_selection_is_closure", "GM.selectNodes_none", "GM.mem_descAll_iff", "Props.C12_restriction_keeps_values", "Props.C12_alias_tag_wins", "Props.C12_alias_id", "Props.C12_alias_unknown_refused", "Props.C12_alias_list_is_union", "Props.C12_alias_list_refused_iff", "Props.C12_unselected_nodes_keep_their_value", "Props.C12_targets_only"], run_G, ASSUME_G)
 
 
 # ---------------------------------------------------------------------------------------------
